@@ -178,6 +178,19 @@ Definition text_ok_b (ix : indexer) (h : hay) : bool :=
           (seq 0 (S (length h))).
 
 (* a node without byte-level leaves or string sets: what the parser produces for a pattern without \q{...}; for such nodes the optimizer theorems need no hypothesis on the node besides qok *)
+(* the node kinds the parser produces: everything but the byte-level leaves the optimizer introduces *)
+Fixpoint parsed (n : node) : bool :=
+  match n with
+  | NCat l => forallb parsed l
+  | NAlt a b => parsed a && parsed b
+  | NCaptureGroup _ c _ => parsed c
+  | NLookaround _ _ _ _ c => parsed c
+  | NLoop b _ _ _ _ _ => parsed b
+  | NLoop1CharBody b _ _ _ => parsed b
+  | NByteSequence _ | NByteSet _ => false
+  | _ => true
+  end.
+
 Fixpoint simple (n : node) : bool :=
   match n with
   | NCat l => forallb simple l
